@@ -37,6 +37,13 @@ def log(*a):
 
 
 # ----------------------------------------------------------------------------- running workers
+def clip(err, head=5000, tail=3000):
+    """sanitizer reports start with the error line and end with pages of shadow bytes: keep both ends"""
+    if len(err) <= head + tail:
+        return err
+    return err[:head] + "\n...[clipped]...\n" + err[-tail:]
+
+
 def run_chunk(exe, backend, variant, scenario, base, first, count, opts, samples=2, timeout=3600, env=None, wrapper=None):
     """Runs `count` seeds in one worker process; restarts after a worker death.
     Returns (records, deaths) where deaths = [(seed, rc, stderr_tail)]"""
@@ -75,7 +82,7 @@ def run_chunk(exe, backend, variant, scenario, base, first, count, opts, samples
                 restart = True
         if finished and rc == 88 and wrapper:
             # valgrind reported errors (its exit code) although the worker completed: attribute to the last run of this chunk
-            deaths.append({"seed": records[-1]["seed"] if records else None, "index": end - 1, "rc": rc, "stderr": err[-6000:], "exe": exe, "backend": backend,
+            deaths.append({"seed": records[-1]["seed"] if records else None, "index": end - 1, "rc": rc, "stderr": clip(err), "exe": exe, "backend": backend,
                            "variant": variant, "scenario": scenario, "opts": dict(opts), "base": base})
             break
         if finished:
@@ -84,7 +91,7 @@ def run_chunk(exe, backend, variant, scenario, base, first, count, opts, samples
             i = i + done
             continue
         # the worker died in run number `done` of this chunk
-        deaths.append({"seed": cur, "index": i + done, "rc": rc, "stderr": err[-6000:], "exe": exe, "backend": backend,
+        deaths.append({"seed": cur, "index": i + done, "rc": rc, "stderr": clip(err), "exe": exe, "backend": backend,
                        "variant": variant, "scenario": scenario, "opts": dict(opts), "base": base})
         i = i + done + 1
     return records, deaths
@@ -149,7 +156,7 @@ def run_plan(exe, plan_text, backend, variant, timeout=600, wrapper=None):
                     rec = json.loads(line)
                 except ValueError:
                     pass
-        return rec, p.returncode, p.stderr.decode(errors="replace")[-6000:]
+        return rec, p.returncode, clip(p.stderr.decode(errors="replace"))
     except subprocess.TimeoutExpired:
         return None, -999, "TIMEOUT"
     finally:
